@@ -104,4 +104,22 @@ CHECKS = {
         "text": "Every dangling reference, duplicate (verbatim and changed), deletion and container cycle that can be introduced at a single point of each core document is loaded under a time guard: broken documents must raise, harmless ones must load into a graph where every name denotes one object, every reference is that object (identity) and inheritor lists equal the base relation; the audit also runs on thousands of generated and all bundled documents.",
         "note": "References from criteria and length specifications are outside the claim; a verbatim duplicate container may be rejected or tolerated.",
     },
+    "C18": {
+        "level": "exploration",
+        "technique": "bounded-exhaustive enumeration of definitions (one per field kind) x value-extreme packets x APID interleavings x file lists x raw/derived mode through create_dataset, compared cell by cell with packet_generator's own items",
+        "text": "For every field kind of the palette and a boundary set of integer widths, datasets are built from every value-extreme packet, every APID interleaving of the bound and every file-list order, in derived and raw mode; every cell must equal the parsed (or raw) value in kind and value (NaN-aware, bit exact), rows per APID in stream order, one variable per parameter; a polymorphic APID must raise ValueError.",
+        "note": "Expected cells come from packet_generator (whose correctness is C01's business); booleans and ints may live in a wider numeric column if exact; one known finding (trailing NUL stripping by numpy S/U dtypes) is recorded in known_findings.json.",
+    },
+    "C19": {
+        "level": "exploration",
+        "technique": "bounded-exhaustive enumeration of packet files (n = 0..13 packets, with truncated tails) and packet indices through the click commands, with the printed table / packet parsed back and compared",
+        "text": "describe-packets is run on every file of the bound and its printed rows must be exactly the header tuples (all rows up to ten, otherwise five + ellipsis + five); parse --packet i is run for every i in 0..n+1 and must show exactly packet i or the out-of-range message; exit code 0 and no exception, under a per-invocation time and memory guard.",
+        "note": "Fixed COLUMNS=200; negative indices are not judged; rows are recognised as lines of exactly seven integer cells.",
+    },
+    "C20": {
+        "level": "exploration",
+        "technique": "bounded-exhaustive enumeration of values x raw values x operations x copy methods on the five value classes and on parsed packets, against the same operation on the plain built-in",
+        "text": "Every value of the alphabet (zeros, negatives, huge ints, signed zeros, infinities, NaN, empty and non-ASCII text/bytes, booleans) with every raw value (omitted and every falsy kind) is put through comparisons, hashing, truth, str/repr/format, arithmetic, bit operations, slicing, containment, dict-key use and sorting, and through copy, deepcopy and pickle protocols 0..5; parsed packets (cursor mid-way/at end, cached header properties) go through the same copies.",
+        "note": "The boolean class is int-backed: truth/str/format like bool, arithmetic like int.",
+    },
 }
